@@ -366,6 +366,40 @@ fn builder_script(args: &[String]) {
     }
 }
 
+/// consumer-script <hex bytes> <k> <cont|stop|error>: parse_bytes with a consumer that logs every callback and answers
+/// Continue except at callback number k (0-based). Prints the log, one callback per line, then `result <Debug>`.
+fn consumer_script(args: &[String]) {
+    use rspirv::binary::{Consumer, ParseAction};
+    #[derive(Debug)]
+    struct MyErr(u32);
+    impl std::fmt::Display for MyErr { fn fmt(&self, f: &mut std::fmt::Formatter) -> std::fmt::Result { write!(f, "MyErr{}", self.0) } }
+    impl std::error::Error for MyErr {}
+    struct C { n: usize, k: usize, ans: String }
+    impl C {
+        fn answer(&mut self, what: String) -> ParseAction {
+            let me = self.n;
+            self.n += 1;
+            let a = if me == self.k { self.ans.clone() } else { "cont".to_string() };
+            println!("cb {} {} {}", me, what, a);
+            match a.as_str() {
+                "stop" => ParseAction::Stop,
+                "error" => ParseAction::Error(Box::new(MyErr(me as u32))),
+                _ => ParseAction::Continue,
+            }
+        }
+    }
+    impl Consumer for C {
+        fn initialize(&mut self) -> ParseAction { self.answer("init".into()) }
+        fn finalize(&mut self) -> ParseAction { self.answer("finalize".into()) }
+        fn consume_header(&mut self, _h: rspirv::dr::ModuleHeader) -> ParseAction { self.answer("header".into()) }
+        fn consume_instruction(&mut self, i: rspirv::dr::Instruction) -> ParseAction { self.answer(format!("inst:{}", i.class.opname)) }
+    }
+    let bytes = parse_hex_bytes(&args[0]);
+    let mut c = C { n: 0, k: args[1].parse().unwrap(), ans: args[2].clone() };
+    let r = rspirv::binary::parse_bytes(&bytes, &mut c);
+    println!("result {}", format!("{:?}", r).replace(' ', ""));
+}
+
 fn main() {
     let args: Vec<String> = env::args().collect();
     match args.get(1).map(|s| s.as_str()) {
@@ -378,6 +412,7 @@ fn main() {
         Some("table-dump") => table_dump(&args[2]),
         Some("load-batch") => load_batch(),
         Some("builder-script") => builder_script(&args[2..]),
+        Some("consumer-script") => consumer_script(&args[2..]),
         Some("builder-batch") => {
             use std::io::BufRead;
             std::panic::set_hook(Box::new(|_| {}));
